@@ -6,7 +6,11 @@
 (* name template, source map mode, legal comment mode).  One state = one   *)
 (* (world, edit) pair.                                                     *)
 (*                                                                         *)
-(* drop = {} and lih = mih = TRUE is the design: all four properties must  *)
+(* The three name templates (entry, chunk, asset) contain [hash] or not    *)
+(* independently (hE, hK, hA); the asset is named by the asset template or *)
+(* (ae: a copied entry point) by the entry template.                       *)
+(*                                                                         *)
+(* drop = {} and lih = mih = TRUE is the design: all five properties must  *)
 (* hold (AllHold).  Every other variant is a MUTANT of the naming          *)
 (* function (one ingredient left out of the hashes): its failing classes   *)
 (* are exported, which shows that each ingredient is necessary and which   *)
@@ -16,35 +20,39 @@ EXTENDS Hash, Json
 
 CONSTANTS N,                  \* number of chunks
           SMs, Legals,        \* option values explored
-          HEs, HAs, PPs, LVs, \* entry/asset template has [hash], public path set, legal comment present
+          HEs, HKs, HAs,      \* the entry / chunk / asset template has [hash]
+          PPs, LVs,           \* public path set, legal comment present
           LIHs, MIHs,         \* repairs (see Hash.tla)
           DROPs,              \* the sets of ingredients left out (design: {})
-          CSSs                \* is chunk 1 a CSS chunk
+          CSSs,               \* is chunk 1 a CSS chunk
+          AEs                 \* is the asset a copied entry point (named by the entry template, always emitted)
 
 Chunks == 1..N
 Assets == {"x"}
 
-Opts == [hE : HEs, hK : (IF N > 2 THEN BOOLEAN ELSE {TRUE}), hA : HAs, pp : PPs, sm : SMs, legal : Legals, lv : LVs, lih : LIHs, mih : MIHs,
-         drop : DROPs, css : CSSs]
+Opts == [hE : HEs, hK : HKs, hA : HAs, pp : PPs, sm : SMs, legal : Legals, lv : LVs, lih : LIHs, mih : MIHs,
+         drop : DROPs, css : CSSs, ae : AEs]
 
 Graphs == {f \in [Chunks -> SUBSET Chunks] : \A c \in Chunks : c \notin f[c]}
 
 World(o, imp, aref) ==
   [ chunks |-> Chunks, assets |-> Assets, names |-> <<>>, imp |-> imp, aref |-> aref,
-    hashedC |-> [c \in Chunks |-> IF c <= 2 THEN o.hE ELSE o.hK], hashedA |-> o.hA,
+    th |-> [t \in Templates |-> CASE t = "entry" -> o.hE [] t = "chunk" -> o.hK [] OTHER -> o.hA],
+    tplC |-> [c \in Chunks |-> IF c <= 2 THEN "entry" ELSE "chunk"],
+    tplA |-> [a \in Assets |-> IF o.ae THEN "entry" ELSE "asset"],
     pp |-> o.pp, sm |-> o.sm, legal |-> o.legal, lih |-> o.lih, mih |-> o.mih, drop |-> o.drop,
     css |-> [c \in Chunks |-> o.css /\ c = 1],
     fake |-> [c \in Chunks |-> c = 1],
     code |-> [c \in Chunks |-> 0], parts |-> [c \in Chunks |-> 0], tmpl |-> [c \in Chunks |-> 0],
     smP |-> [c \in Chunks |-> 0], smM |-> [c \in Chunks |-> 0], smS |-> [c \in Chunks |-> 0],
-    legalv |-> [c \in Chunks |-> o.lv], ppv |-> 0, atpl |-> 0,
+    legalv |-> [c \in Chunks |-> o.lv], ppv |-> 0, atpl |-> [a \in Assets |-> 0],
     abytes |-> [a \in Assets |-> 0] ]
 
 Edits(w) ==
   {[k |-> kk, c |-> c] : kk \in {"code", "parts", "tmpl", "smP", "smM", "smS", "legal"}, c \in w.chunks}
   \cup (IF w.pp THEN {[k |-> "pp"]} ELSE {[k |-> "ppon"]})
-  \cup {[k |-> "asset", a |-> a] : a \in UsedAssets(w)}
-  \cup (IF UsedAssets(w) # {} THEN {[k |-> "atpl"]} ELSE {})
+  \cup {[k |-> "asset", a |-> a] : a \in EmittedAssets(w)}
+  \cup {[k |-> "atpl", a |-> a] : a \in EmittedAssets(w)}
   \cup {[k |-> "smmode", to |-> t] : t \in SMs \ {w.sm}}
   \cup {[k |-> "legalmode", to |-> t] : t \in Legals \ {w.legal}}
   \cup UNION {{[k |-> "import", c |-> c, d |-> d] : d \in {x \in w.chunks : x # c /\ x \notin w.imp[c]}} : c \in w.chunks}
@@ -72,6 +80,7 @@ InvSamePathSameBytes == Chosen => SamePathSameBytes(w, W2)
 InvChangePropagates == Chosen => ChangePropagates(w, W2)
 InvRefsResolve == Chosen => (RefsResolve(w) /\ RefsResolve(W2))
 InvNoPlaceholderSurvives == Chosen => (NoPlaceholderSurvives(w) /\ NoPlaceholderSurvives(W2))
+InvNoEmptyHash == Chosen => (NoEmptyHash(w) /\ NoEmptyHash(W2))
 
 \* the edit really changes some emitted bytes in at least some worlds (the checks are not vacuous)
 Effective == {[p |-> f.path, b |-> f.q_bytes] : f \in Files(w)} # {[p |-> f.path, b |-> f.q_bytes] : f \in Files(W2)}
